@@ -338,4 +338,12 @@ theorem encode_spec (h : List Char) (v : Nat) (prog : Bytes)
     rw [← hconv', ← createChecksum_eq_spec, hcs2]
     rfl
 
+/-- `bytes(witprog)` does not raise on a list of byte values -/
+theorem bytesOfInts_ok (l : List Nat) (h : ∀ x ∈ l, x < 256) : bytesOfInts l = .ok (l.map UInt8.ofNat) := by
+  unfold bytesOfInts
+  rw [if_pos]
+  rw [List.all_eq_true]
+  intro x hx
+  simpa using h x hx
+
 end BtcVerif.Bech32
